@@ -289,7 +289,7 @@ class MdParserConfig:
     heading_anchors: int = dc.field(
         default=0,
         metadata={
-            "validator": optional(in_([0, 1, 2, 3, 4, 5, 6, 7])),
+            "validator": in_([0, 1, 2, 3, 4, 5, 6, 7]),
             "help": "Heading level depth to assign HTML anchors",
         },
     )
